@@ -3,6 +3,7 @@ package lifecycle
 import (
 	"bufio"
 	"encoding/json"
+	"errors"
 	"fmt"
 	"os"
 	"path/filepath"
@@ -81,6 +82,10 @@ func checkOut(c OutCase) pbt.Verdict {
 	}
 	s := &sc.Scenario{Procs: procs, LogLength: c.LogLength, Top: top, FinishRounds: 6}
 	e, err := sc.Begin(s)
+	if errors.Is(err, sc.ErrLeftover) {
+		v.Skip = true
+		return v
+	}
 	if err != nil {
 		return fail("load failed: %v\n%s", err, sc.YAML(procs, false, c.LogLength, top))
 	}
